@@ -11,3 +11,7 @@
 ; "the closed edge meets the pixel" is: exists t. meetsAt(l, e, t)
 (define-fun meetsAt ((l A2_A2_M) (e A4_M) (t Real)) Bool
   (and (<= 0.0 t) (<= t 1.0) (inPixelXY (segX l t) (segY l t) e)))
+; meets(l, e) := exists t. meetsAt(l, e, t), introduced by its two defining axioms (pointindex.meets_def1/2 in the
+; contract file): meets => meetsAt at the chosen parameter meetsT, and meetsAt at any t => meets.
+(declare-fun meets (A2_A2_M A4_M) Bool)
+(declare-fun meetsT (A2_A2_M A4_M) Real)
